@@ -427,6 +427,37 @@ void misc_phase(World& w, const Task& t, Agg& a)
         a.count("playlist_updates_that_moved", moved);
         if (moved < 40) a.violation("harness|playlist_move|vacuous", "[" + sn + "] only " + std::to_string(moved) + " of the playlist updates changed the position", sn + "|P|playlist_move");
     }
+    // ---- change log rows (the table exists before 2.20.3 only): add() reads back through last(), all() and after()
+    {
+        a.count("evaluations");
+        const bool has_table = !w.query("SELECT name FROM sqlite_master WHERE type = 'table' AND name = 'ChangeLog'").empty();
+        const std::string cid = sn + "|P|change_log";
+        try
+        {
+            auto cl = w.lib2->change_log();
+            if (!has_table) a.violation("change_log|accessor_without_table", "[" + sn + "] change_log() is handed out although the schema has no ChangeLog table", cid);
+            else
+            {
+                auto before = cl.all();
+                int64_t id = cl.add(4242);
+                auto l = cl.last();
+                auto all = cl.all();
+                auto aft = cl.after(id - 1);
+                bool ok2 = l && l->id == id && l->track_id == 4242 && all.size() == before.size() + 1 && all.back().id == id && all.back().track_id == 4242 && aft.size() == 1 && aft[0].id == id && aft[0].track_id == 4242 &&
+                           cl.after(id).empty();
+                auto raw = w.query("SELECT id, trackId FROM ChangeLog ORDER BY id");
+                ok2 = ok2 && raw.size() == all.size();
+                for (size_t k = 0; ok2 && k < raw.size(); ++k) ok2 = std::to_string(all[k].id) == raw[k][0] && std::to_string(all[k].track_id) == raw[k][1];
+                if (!ok2) a.violation("change_log|add|not_preserved", "[" + sn + "] change_log add(4242) is not read back by last() / all() / after(), or all() differs from the raw table", cid);
+                else a.count("validated");
+            }
+        }
+        catch (const std::exception& e)
+        {
+            if (has_table) a.violation("change_log|rejected", "[" + sn + "] the ChangeLog table exists but the change log API threw: " + exname(e) + ": " + e.what(), cid);
+            else a.count("validated");
+        }
+    }
     // ---- playlist entity rows
     int64_t t1 = tt.add(base_row(0)), t2 = tt.add(base_row(1));
     for (int64_t track : {t1, t2})
